@@ -5,6 +5,7 @@
 #include "stl_model.h"
 #endif
 
+#define GROUPS_INTERNALS
 #include "groups.h"
 
 #ifdef SPEC_PART_CONTRACTS
@@ -104,6 +105,7 @@ void h_getitem_cells(void)
   CellHeader *a = malloc(n * sizeof(CellHeader)); __CPROVER_assume(a);
   v.ptrToData = a; v.nbItems = n;
   GETITEM_C(&v, i);
+  CANARY();
 }
 /*@ harness h_getitem_leaves enforce=TbfMemoryVector_LeafHeader_64__ViewerConst__getItem props=C16,C15,C14 */
 void h_getitem_leaves(void)
@@ -113,29 +115,55 @@ void h_getitem_leaves(void)
   LeafHeader *a = malloc(n * sizeof(LeafHeader)); __CPROVER_assume(a);
   v.ptrToData = a; v.nbItems = n;
   GETITEM_L(&v, i);
+  CANARY();
 }
 
 /* accessors of the cell group: bodies go through TbfMemoryBlock::getViewerForBlock(Const)<i> and the viewers */
 /*@ harness h_cells_nb enforce=TbfCellsContainer__getNbCells props=C16,C15,C14 */
-void h_cells_nb(void) { CellGroup g; long n; mk_cells(&g, n); TbfCellsContainer__getNbCells(&g); }
+void h_cells_nb(void) { CellGroup g; long n; mk_cells(&g, n); TbfCellsContainer__getNbCells(&g);  CANARY(); }
 /*@ harness h_cells_start enforce=TbfCellsContainer__getStartingSpacialIndex props=C16,C15,C14 */
-void h_cells_start(void) { CellGroup g; long n; mk_cells(&g, n); TbfCellsContainer__getStartingSpacialIndex(&g); }
+void h_cells_start(void) { CellGroup g; long n; mk_cells(&g, n); TbfCellsContainer__getStartingSpacialIndex(&g);  CANARY(); }
 /*@ harness h_cells_end enforce=TbfCellsContainer__getEndingSpacialIndex props=C16,C15,C14 */
-void h_cells_end(void) { CellGroup g; long n; mk_cells(&g, n); TbfCellsContainer__getEndingSpacialIndex(&g); }
+void h_cells_end(void) { CellGroup g; long n; mk_cells(&g, n); TbfCellsContainer__getEndingSpacialIndex(&g);  CANARY(); }
 /*@ harness h_cells_idx enforce=TbfCellsContainer__getCellSpacialIndex props=C16,C15,C14 */
-void h_cells_idx(void) { CellGroup g; long n, i; mk_cells(&g, n); TbfCellsContainer__getCellSpacialIndex(&g, i); }
+void h_cells_idx(void) { CellGroup g; long n, i; mk_cells(&g, n); TbfCellsContainer__getCellSpacialIndex(&g, i);  CANARY(); }
 /*@ harness h_cells_symb enforce=TbfCellsContainer__getCellSymbData props=C16,C15,C14 */
-void h_cells_symb(void) { CellGroup g; long n, i; mk_cells(&g, n); TbfCellsContainer__getCellSymbData(&g, i); }
+void h_cells_symb(void) { CellGroup g; long n, i; mk_cells(&g, n); TbfCellsContainer__getCellSymbData(&g, i);  CANARY(); }
 /*@ harness h_cells_box enforce=TbfCellsContainer__getCellBoxCoord props=C15,C14 */
-void h_cells_box(void) { CellGroup g; long n, i; mk_cells(&g, n); TbfCellsContainer__getCellBoxCoord(&g, i); }
+void h_cells_box(void) { CellGroup g; long n, i; mk_cells(&g, n); TbfCellsContainer__getCellBoxCoord(&g, i);  CANARY(); }
 /*@ harness h_cells_mult enforce=TbfCellsContainer__getCellMultipole props=C15,C14 */
-void h_cells_mult(void) { CellGroup g; long n, i; mk_cells(&g, n); TbfCellsContainer__getCellMultipole(&g, i); }
+void h_cells_mult(void) { CellGroup g; long n, i; mk_cells(&g, n); TbfCellsContainer__getCellMultipole(&g, i);  CANARY(); }
 /*@ harness h_cells_multc enforce=TbfCellsContainer__getCellMultipole__c props=C15,C14 */
-void h_cells_multc(void) { CellGroup g; long n, i; mk_cells(&g, n); TbfCellsContainer__getCellMultipole__c(&g, i); }
+void h_cells_multc(void) { CellGroup g; long n, i; mk_cells(&g, n); TbfCellsContainer__getCellMultipole__c(&g, i);  CANARY(); }
 /*@ harness h_cells_loc enforce=TbfCellsContainer__getCellLocal props=C15,C14 */
-void h_cells_loc(void) { CellGroup g; long n, i; mk_cells(&g, n); TbfCellsContainer__getCellLocal(&g, i); }
+void h_cells_loc(void) { CellGroup g; long n, i; mk_cells(&g, n); TbfCellsContainer__getCellLocal(&g, i);  CANARY(); }
 /*@ harness h_cells_locc enforce=TbfCellsContainer__getCellLocal__c props=C15,C14 */
-void h_cells_locc(void) { CellGroup g; long n, i; mk_cells(&g, n); TbfCellsContainer__getCellLocal__c(&g, i); }
+void h_cells_locc(void) { CellGroup g; long n, i; mk_cells(&g, n); TbfCellsContainer__getCellLocal__c(&g, i);  CANARY(); }
+
+
+/* accessors of the particle group */
+/*@ harness h_parts_nbleaves enforce=TbfParticlesContainer__getNbLeaves props=C16,C15,C14 */
+void h_parts_nbleaves(void) { PartGroup g; long n, np; mk_parts(&g, n, np); TbfParticlesContainer__getNbLeaves(&g);  CANARY(); }
+/*@ harness h_parts_nbparts enforce=TbfParticlesContainer__getNbParticles props=C15,C14 */
+void h_parts_nbparts(void) { PartGroup g; long n, np; mk_parts(&g, n, np); TbfParticlesContainer__getNbParticles(&g);  CANARY(); }
+/*@ harness h_parts_start enforce=TbfParticlesContainer__getStartingSpacialIndex props=C15,C14 */
+void h_parts_start(void) { PartGroup g; long n, np; mk_parts(&g, n, np); TbfParticlesContainer__getStartingSpacialIndex(&g);  CANARY(); }
+/*@ harness h_parts_end enforce=TbfParticlesContainer__getEndingSpacialIndex props=C15,C14 */
+void h_parts_end(void) { PartGroup g; long n, np; mk_parts(&g, n, np); TbfParticlesContainer__getEndingSpacialIndex(&g);  CANARY(); }
+/*@ harness h_parts_leafidx enforce=TbfParticlesContainer__getLeafSpacialIndex props=C16,C15,C14 */
+void h_parts_leafidx(void) { PartGroup g; long n, np, i; mk_parts(&g, n, np); TbfParticlesContainer__getLeafSpacialIndex(&g, i);  CANARY(); }
+/*@ harness h_parts_leafsymb enforce=TbfParticlesContainer__getLeafSymbData props=C15,C14 */
+void h_parts_leafsymb(void) { PartGroup g; long n, np, i; mk_parts(&g, n, np); TbfParticlesContainer__getLeafSymbData(&g, i);  CANARY(); }
+/*@ harness h_parts_leafcnt enforce=TbfParticlesContainer__getNbParticlesInLeaf props=C15,C14 */
+void h_parts_leafcnt(void) { PartGroup g; long n, np, i; mk_parts(&g, n, np); TbfParticlesContainer__getNbParticlesInLeaf(&g, i);  CANARY(); }
+/*@ harness h_parts_pidxc enforce=TbfParticlesContainer__getParticleIndexes__c props=C15,C14 */
+void h_parts_pidxc(void) { PartGroup g; long n, np, i; mk_parts(&g, n, np); TbfParticlesContainer__getParticleIndexes__c(&g, i);  CANARY(); }
+/*@ harness h_parts_pidx enforce=TbfParticlesContainer__getParticleIndexes props=C15,C14 */
+void h_parts_pidx(void) { PartGroup g; long n, np, i; mk_parts(&g, n, np); TbfParticlesContainer__getParticleIndexes(&g, i);  CANARY(); }
+/*@ harness h_parts_datac enforce=TbfParticlesContainer__getParticleData__c unwind=6 props=C15,C14 */
+void h_parts_datac(void) { PartGroup g; long n, np, i; mk_parts(&g, n, np); TbfParticlesContainer__getParticleData__c(&g, i);  CANARY(); }
+/*@ harness h_parts_rhs enforce=TbfParticlesContainer__getParticleRhs unwind=6 props=C15,C14 */
+void h_parts_rhs(void) { PartGroup g; long n, np, i; mk_parts(&g, n, np); TbfParticlesContainer__getParticleRhs(&g, i);  CANARY(); }
 
 /* binary search: loop contract; the comparator body is kept, the element accessor is used through its contract */
 /*@ harness h_lb_cells enforce=TbfUtils__lower_bound_indexes__long_TbfCellsContainer__getElementFromSpacialIndex__lam0 replace=TbfMemoryVector_CellHeader_64__ViewerConst__getItem loopcontracts=1 defs=ELIM_WF props=C16,C15 */
@@ -146,6 +174,7 @@ void h_lb_cells(void)
   ghost_sorted_base = CG_CELLS(&g);
   struct TbfCellsContainer__getElementFromSpacialIndex__lam0 comp = { .cap_this = &g };
   LB_CELLS(0, n, &q, comp);
+  CANARY();
 }
 /*@ harness h_lb_parent enforce=TbfUtils__lower_bound_indexes__long_TbfCellsContainer__getElementFromParentIndex__lam0 replace=TbfMemoryVector_CellHeader_64__ViewerConst__getItem,TbfMortonSpaceIndex__getParentIndex loopcontracts=1 defs=ELIM_WF props=C16,C15 */
 void h_lb_parent(void)
@@ -155,6 +184,7 @@ void h_lb_parent(void)
   ghost_sorted_base = CG_CELLS(&g);
   struct TbfCellsContainer__getElementFromParentIndex__lam0 comp = { .cap_this = &g, .cap_spaceSystem = &m };
   LB_PARENT(0, n, &q, comp);
+  CANARY();
 }
 /*@ harness h_lb_leaves enforce=TbfUtils__lower_bound_indexes__long_TbfParticlesContainer__getElementFromSpacialIndex__lam0 replace=TbfMemoryVector_LeafHeader_64__ViewerConst__getItem loopcontracts=1 defs=ELIM_WF props=C16,C15 */
 void h_lb_leaves(void)
@@ -166,6 +196,7 @@ void h_lb_leaves(void)
   ghost_sorted_base = a;
   struct TbfParticlesContainer__getElementFromSpacialIndex__lam0 comp = { .cap_leavesViewer = &v };
   LB_LEAVES(0, n, &q, comp);
+  CANARY();
 }
 
 /* lookups: found iff present */
@@ -176,6 +207,7 @@ void h_find_cell(void)
   mk_cells(&g, n);
   ghost_sorted_base = CG_CELLS(&g);
   TbfCellsContainer__getElementFromSpacialIndex(&g, q);
+  CANARY();
 }
 /*@ harness h_find_parent enforce=TbfCellsContainer__getElementFromParentIndex replace=TbfUtils__lower_bound_indexes__long_TbfCellsContainer__getElementFromParentIndex__lam0,TbfMemoryVector_CellHeader_64__ViewerConst__getItem,TbfMortonSpaceIndex__getParentIndex defs=ELIM_WF props=C16,C15 */
 void h_find_parent(void)
@@ -184,6 +216,7 @@ void h_find_parent(void)
   mk_cells(&g, n);
   ghost_sorted_base = CG_CELLS(&g);
   TbfCellsContainer__getElementFromParentIndex(&g, &m, q);
+  CANARY();
 }
 /*@ harness h_find_leaf enforce=TbfParticlesContainer__getElementFromSpacialIndex replace=TbfUtils__lower_bound_indexes__long_TbfParticlesContainer__getElementFromSpacialIndex__lam0,TbfMemoryVector_LeafHeader_64__ViewerConst__getItem defs=ELIM_WF props=C16,C15 */
 void h_find_leaf(void)
@@ -192,5 +225,6 @@ void h_find_leaf(void)
   mk_parts_symb(&g, n);
   ghost_sorted_base = PG_LEAVES(&g);
   TbfParticlesContainer__getElementFromSpacialIndex(&g, q);
+  CANARY();
 }
 #endif
